@@ -152,7 +152,7 @@ def run(chk):
             pairs.append((op, a, b))
             cases.append(("k%d" % (len(pairs) - 1), ["newcompiler", "add " + hx(("rule c { condition: (%s %s %s) == 0 }" % (c12.lit(a), c12.OPS[op], c12.lit(b))).encode()),
                                                        "force destroycompiler"]))
-    out, err = vlib.run_cases(hscan, cases, timeout=3000, args=["20"])
+    out, err = vlib.run_cases(hscan, cases, timeout=3000, args=["20"], jobs=16)
     ub = sorted(set(re.findall(r"(\S+:\d+:\d+: runtime error: [^\n]{0,80})", err)))
     chk.note(ubsan_reports=ub[:20])
     kinds = {}
